@@ -98,6 +98,15 @@ class _Namespaces:
 '''
 
 
+
+def _empty_style():
+    """The declaration block of a model style rule: empty. A namespace is in use because a *selector* names it,
+    whatever the block holds - an empty rule is still part of the sheet (and written under keepEmptyRules)."""
+    from sa.absint import Record
+
+    return Record(length=0, seq=[], cssText='', valid=True, wellformed=True, getProperties=lambda *a, **k: [], keys=lambda: [], __len__=lambda: 0)
+
+
 def r15a(chk, rid='R15.a'):
     chk.rule(rid, 'index-space rule: an index obtained by enumerating a filtered view (filter(...), a comprehension with a condition, or `self` of a class whose __iter__ skips items) must not be used to index or delete from another sequence, nor be handed to deleteRule/insertRule as a position')
     from sa.core import Module
@@ -132,7 +141,7 @@ def r15b(chk, rid='R15.b'):
     K = dict(STYLE_RULE=1, MEDIA_RULE=4, PAGE_RULE=6, COMMENT=1001, NAMESPACE_RULE=10)
 
     def style(uri):
-        return Record(type=1, selectorList=Record(_getUsedUris=lambda: {uri}), **K)
+        return Record(type=1, selectorList=Record(_getUsedUris=lambda: {uri}), style=_empty_style(), **K)
 
     def media(*rules):
         return Rules(type=4, cssRules=list(rules), **K)
@@ -446,8 +455,8 @@ def eval_delete_rule(chk, rid):
             RuleM(type=2, tag='charset', **K), RuleM(type=10, tag='p=u1', prefix='p', namespaceURI='u1', **K), RuleM(type=10, tag='q=u1', prefix='q', namespaceURI='u1', **K),
             RuleM(type=10, tag='r=u2', prefix='r', namespaceURI='u2', **K), RuleM(type=10, tag='s=u3', prefix='s', namespaceURI='u3', **K),
             RuleM(type=10, tag='default=u4', prefix='', namespaceURI='u4', **K),
-            RuleM(type=1, tag='style-u1', selectorList=Record(_getUsedUris=lambda: {'u1'}), **K), RuleM(type=1, tag='style-u2', selectorList=Record(_getUsedUris=lambda: {'u2'}), **K),
-            RuleM(type=1, tag='style-u4', selectorList=Record(_getUsedUris=lambda: {'u4'}), **K)])
+            RuleM(type=1, tag='style-u1', selectorList=Record(_getUsedUris=lambda: {'u1'}), style=_empty_style(), **K), RuleM(type=1, tag='style-u2', selectorList=Record(_getUsedUris=lambda: {'u2'}), style=_empty_style(), **K),
+            RuleM(type=1, tag='style-u4', selectorList=Record(_getUsedUris=lambda: {'u4'}), style=_empty_style(), **K)])
         me = Sheet(_cssRules=rs, _checkReadonly=lambda: None)
         me.cssRules = rs
         me._namespaces = namespaces_view(chk, me, (Rules,))
@@ -542,7 +551,7 @@ def r15k(chk, rid='R15.k'):
             return iter(self.cssRules)
 
     def style(tag, uris):
-        return Obj(type=1, cssText=tag, selectorList=Record(_getUsedUris=lambda: set(uris)), **K)
+        return Obj(type=1, cssText=tag, selectorList=Record(_getUsedUris=lambda: set(uris)), style=_empty_style(), **K)
 
     def ns(prefix, uri):
         return Obj(type=10, prefix=prefix, namespaceURI=uri, cssText=f'@namespace {prefix} "{uri}";', **K)
